@@ -155,13 +155,19 @@ Definition rebin3 (c : cube S) (f : Z) : result (cube S) :=
   else if (0 <? cd c) && negb (reshape_ok (cr c) (cc c) f) then Err ValueError
   else Ok (mkCube (cd c) (cr c / f) (cc c / f) (fun k => rebin_get f (cget c k))).
 
+(* the public entry: complex data are refused before anything else *)
+Definition rebin2_entry (is_complex : bool) (a : arr S) (f : Z) : result (arr S) :=
+  if is_complex then Err ValueError else rebin2 a f.
+Definition rebin3_entry (is_complex : bool) (c : cube S) (f : Z) : result (cube S) :=
+  if is_complex then Err ValueError else rebin3 c f.
+
 Definition csum (c : cube S) : S := sumZ (cd c) (fun k => asum (cslice c k)).
 End Geometry.
 
 Arguments cslice {S}. Arguments pad_get {S}. Arguments pad2 {S}. Arguments pad3 {S}.
 Arguments subarray {S}. Arguments np_slice {S}. Arguments window {S}. Arguments np_slice3 {S}. Arguments window3 {S}. Arguments row_any {S}.
 Arguments col_any {S}. Arguments boundary {S}. Arguments boundary_slice {S}. Arguments rebin_get {S}.
-Arguments rebin2 {S}. Arguments rebin3 {S}. Arguments csum {S}.
+Arguments rebin2 {S}. Arguments rebin3 {S}. Arguments csum {S}. Arguments rebin2_entry {S}. Arguments rebin3_entry {S}.
 
 (* ---- lentil.helper.slice_offset ---- *)
 Definition slice_offset (s : slc) (n m : Z) : Z * Z :=
@@ -169,6 +175,18 @@ Definition slice_offset (s : slc) (n m : Z) : Z * Z :=
   | SlEllipsis => (0, 0)
   | SlBox r0 r1 c0 c1 => (r0 + (r1 - r0) / 2 - n / 2, c0 + (c1 - c0) / 2 - m / 2)
   end.
+
+(* slice_offset on the tuple forms that contain an Ellipsis: (Ellipsis, slice(None, None, None)) is the whole
+   array (offset (0, 0)), any other tuple with an Ellipsis is refused with ValueError (the code since fix 394c6f4;
+   before it every such tuple raised TypeError because the parameter `slice` shadowed the builtin) *)
+Inductive ellform := EllBare | EllAll | EllOther.
+Definition slice_offset_ell (e : ellform) : result (Z * Z) :=
+  match e with EllBare => Ok (0, 0) | EllAll => Ok (0, 0) | EllOther => Err ValueError end.
+
+(* ---- lentil.util.sanitize_shape: () stays (), a scalar s becomes (s, s), a sequence is kept ---- *)
+Inductive shape_arg := ShScalar (s : Z) | ShSeq (l : list Z).
+Definition sanitize_shape (a : shape_arg) : list Z :=
+  match a with ShScalar s => [s; s] | ShSeq l => l end.
 
 (* ---- the rationals as a Scalar, and lentil.centroid on them ---- *)
 Definition QS : Scalar :=
